@@ -26,47 +26,13 @@ def L(*b):
     return ("L", tuple(b))
 
 
-def op_on(name, path):
-    """transformation `name` applied to the node at `path` (loop trans: the node; region trans: that single node)"""
-    if name in spec.LOOP_TRANS:
-        return (name, ("node", tuple(path)), {"force": True})
-    return (name, ("range", tuple(path[:-1]), path[-1], path[-1] + 1), {})
-
-
-TOPS = [[], ["OMPParallel"], ["OMPTarget"], ["ACCParallel"], ["ACCKernels"], ["ACCData"],
-        ["OMPSingle", "OMPParallel"], ["OMPMaster", "OMPParallel"], ["OMPTarget", "OMPParallel"],
-        ["OMPParallel", "OMPTarget"], ["ACCParallel", "ACCData"]]
-ALL = spec.LOOP_TRANS + spec.REGION_TRANS
-
-
 def systematic():
-    out = []
-    a2 = (L(L(S)),)
-    b1 = (L(S),)
-    imp = (L(L(S), S),)
-    imp_pre = (L(S, L(S)),)
-    ret = (L(S, R),)
+    out = spec.systematic_histories(spec.TOPS)
     a3 = (L(L(L(S))),)
-    for tops in TOPS:
-        top_ops = [("%s" % t, ("range", (), 0, 1), {}) for t in tops]
-        for x in ALL:
-            out.append((b1, [op_on(x, (0,))] + top_ops))
-            out.append((ret, [op_on(x, (0,))] + top_ops))
-            for y in ALL:
-                out.append((a2, [op_on(x, (0, 0)), op_on(y, (0,))] + top_ops))
-                if y in spec.REGION_TRANS:
-                    out.append((b1, [op_on(x, (0,)), (y, ("range", (), 0, 1), {})] + top_ops))
-        for x in spec.LOOP_TRANS:
-            for sk in (imp, imp_pre):
-                o = (x, ("node", (0,)), {"force": True, "collapse": 2})
-                out.append((sk, [o] + top_ops))
-        # enter data inside regions
-        for x in ALL:
-            out.append((a2, [op_on(x, (0,))] + top_ops + [("ACCEnterData", ("sched", (0,)), {})]))
     for tops in ([], ["OMPParallel"], ["OMPTarget"]):
         top_ops = [("%s" % t, ("range", (), 0, 1), {}) for t in tops]
-        for x, y, z in itertools.product(ALL, ALL, ALL):
-            out.append((a3, [op_on(x, (0, 0, 0)), op_on(y, (0, 0)), op_on(z, (0,))] + top_ops))
+        for x, y, z in itertools.product(spec.ALL_TRANS, spec.ALL_TRANS, spec.ALL_TRANS):
+            out.append((a3, [spec.op_on(x, (0, 0, 0)), spec.op_on(y, (0, 0)), spec.op_on(z, (0,))] + top_ops))
     return out
 
 
